@@ -642,6 +642,10 @@ class PCAFlow(FlowInterface.FlowInterface):
 
         self.__compute_normalization(bins)
         self.number_events_ = len(particle_data)
+        # start from a clean state: the per-call accumulators that
+        # __update_event does not re-create for the first event
+        self.subcalc_counter_ = 0
+        self.sigma_multiplicity_total_ = []
 
         for event in range(self.number_events_):
             self.__update_event(
